@@ -26,7 +26,7 @@ path = os.path.join(HERE, 'DESIGN.md')
 s = open(path).read()
 begin, end = '<!-- S4-BEGIN -->', '<!-- S4-END -->'
 if begin in s:
-    s = re.sub(re.escape(begin) + '.*?' + re.escape(end), begin + '\n' + text + '\n' + end, s, flags=re.S)
+    s = re.sub(re.escape(begin) + '.*?' + re.escape(end), lambda m: begin + '\n' + text + '\n' + end, s, flags=re.S)
 else:
     print('markers missing')
 open(path, 'w').write(s)
